@@ -190,8 +190,14 @@ def edaBoxed (e : A.Tree Nat) : String :=
       | .term t => A.Layer.term (toString t) | .not a => .not a | .and a b => .and a b | .or a b => .or a b
       | .xor a b => .xor a b | .ite a b c => .ite a b c)) with
     | some (some x) => toString (fnv1a x).toNat | _ => "panic"
+  -- printing with terms whose own text looks like syntax
+  let weird : Nat → String := fun t => match t % 7 with
+    | 0 => "-3" | 1 => "~x" | 2 => "(p & q)" | 3 => "" | 4 => "- 1" | 5 => "a ? b : c" | _ => "0"
+  let txtTree := e.toStr weird
+  let txtArena := match A.collapse (A.strAlg weird) arena with | some x => x | none => "panic"
   e.toStr sh ++ " | " ++ A.arenaDebug sh arena ++ " | " ++ ts ++ " | " ++ ev ++ " | " ++ direct ++
-    " | " ++ backS ++ " | " ++ backV ++ " | " ++ evS
+    " | " ++ backS ++ " | " ++ backV ++ " | " ++ evS ++ " | " ++
+    toString (fnv1a txtTree).toNat ++ "/" ++ toString (fnv1a txtArena).toNat
 
 def edaSignal (raw : Nat) : String :=
   let s : BitVec 32 := BitVec.ofNat 32 raw
